@@ -116,12 +116,12 @@ Definition flush (s : sdb) (t : store) : store * sdb :=
   fold_left (fun '(t, s) '(a, _) =>
                let '(o, s1) := lookup s a in
                match o with
-               | None => (t, {| objs := objs s1; okeys := okeys s1; journal := journal s1; dirt := dset (dirt s1) a 0;
+               | None => (t, {| objs := objs s1; okeys := okeys s1; journal := journal s1; dirt := (if repaired s1 then dirt s1 else dset (dirt s1) a 0);
                                 txs := txs s1; cache := cache s1; calls := calls s1; repaired := repaired s1 |})
                | Some o =>
                  let '(t', o') := flush_obj (repaired s) a o t in
                  let s2 := set_objs s1 a (Some o') in
-                 (t', {| objs := objs s2; okeys := okeys s2; journal := journal s2; dirt := dset (dirt s2) a 0;
+                 (t', {| objs := objs s2; okeys := okeys s2; journal := journal s2; dirt := (if repaired s2 then dirt s2 else dset (dirt s2) a 0);
                          txs := txs s2; cache := cache s2; calls := calls s2; repaired := repaired s2 |})
                end) (dirt s) (t, s).
 
@@ -145,9 +145,8 @@ Definition undo (e : entry) (s : sdb) : sdb :=
   | EPrecompile saved sd so =>
     let s1 := with_cache s (Some saved) in
     if repaired s then
-      let s2 := with_dirt s1 sd in
       (* objects cached after the snapshot were loaded from the discarded store: evict them *)
-      fold_left (fun s a => if existsb (fun '(x, _) => Z.eqb x a) so then s else set_objs s a None) (okeys s2) s2
+      fold_left (fun s a => if existsb (fun '(x, _) => Z.eqb x a) so then s else set_objs s a None) (okeys s1) s1
     else s1
   end.
 
